@@ -205,7 +205,21 @@ func (g *genStorage) Block(w *World, b int) Block {
 				add(txStep(mkOp("delete_file", owner).withN("file", int64(f)).withN("post", int64(pi))))
 			}
 		case 3:
-			add(txStep(g.buyOp(rng, u)))
+			op := g.buyOp(rng, u)
+			if g.profile == "usage" && rng.Chance(1, 3) {
+				// a purchase sized around what the account already holds (whole GB below, just below, equal, just above)
+				if pi, found := w.node().app.StorageKeeper.GetStoragePaymentInfo(w.Ctx(), w.accts[u].Bech); found && pi.SpaceUsed > 0 {
+					gb := int64(1_000_000_000)
+					used := pi.SpaceUsed
+					b := rng.Pick64(used/gb*gb, used-1, used, used+1, (used/gb+1)*gb)
+					if b >= gb {
+						op.N["bytes"] = b
+						delete(op.N, "for")
+						w.Probe("purchase_sized_around_usage")
+					}
+				}
+			}
+			add(txStep(op))
 		case 4:
 			add(txStep(mkOp("bank_send", 0).withN("to", int64(u)).withN("amt", rng.Range(1, 1_000_000))))
 		case 5: // same (merkle, owner, start): two posts of the same content in one block
